@@ -19,6 +19,7 @@ EXPLANATION = ("Pattern formatter tables and wiring. R1 (exhaustive over the Att
                "trailing newline is stripped; the splitter writes one statement per line.")
 NOT_DECIDED = ("The rewritten fmt string for arbitrary literal text and specs, line splitting for every arrangement of newlines as "
                "values, MacroMetadata offset arithmetic for file name / line, attributes used twice (excluded by the property).")
+EXHAUSTIVE = "the Attribute and LogLevel enumerators (tables re-derived from the enums on every run)"
 ASSUMPTIONS = []
 PF = "quill::PatternFormatter::"
 BW = "quill::detail::BackendWorker::"
